@@ -113,7 +113,32 @@ def gen_case(rng, tier):
         for _ in range(8):
             insts.append([rng.choice(ITEMS) for _ in range(rng.randint(0, 4))])
     insts.append(rng.choice([Num("1"), "a", None]))
+    r = rng.random()
+    if r < 0.12:
+        # the whole case lives in a Loader document; the root only refers to it (annotations and unevaluated* cross the document border)
+        uri = "http://x.test/u/closed.json"
+        top = Obj([("$ref", uri)]) if rng.random() < 0.6 else Obj([("allOf", [Obj([("$ref", uri)])]), ("title", "t")])
+        return {"op": "validate", "args": {"schema": top, "docs": [[uri, root]], "insts": insts, "loader": True},
+                "meta": {"kw": gs.count_keywords(root), "kind7": kind, "remote": True}}
+    if r < 0.2 and root.get(kw) is not None:
+        # unevaluated* stays in the root; everything it has to see comes from a Loader document
+        uri = "http://x.test/u/part.json"
+        rest = Obj([kv for kv in root.kvs if kv[0] not in (kw, "$defs", "$dynamicAnchor")] + ([("$defs", root.get("$defs"))] if root.get("$defs") is not None else []))
+        if not any(isinstance(v, str) and v.startswith("#") for _, v in _walk(rest)):
+            top = Obj([("$ref", uri), (kw, root.get(kw))])
+            return {"op": "validate", "args": {"schema": top, "docs": [[uri, rest]], "insts": insts, "loader": True},
+                    "meta": {"kw": gs.count_keywords(root), "kind7": kind, "remote": True}}
     return {"op": "validate", "args": {"schema": root, "insts": insts}, "meta": {"kw": gs.count_keywords(root), "kind7": kind}}
+
+
+def _walk(v):
+    if isinstance(v, Obj):
+        for k, x in v.kvs:
+            yield k, x
+            yield from _walk(x)
+    elif isinstance(v, list):
+        for x in v:
+            yield from _walk(x)
 
 
 def gen(rng, tier, n):
